@@ -115,6 +115,23 @@ def check_statements(props_src):
 
 
 def proof_audit(prop, plugin, tier):
+    """Audit Props/<prop>.v and every additional props file the plugin names in EXTRA_PROPS (e.g. C09b)."""
+    ok, info = _proof_audit_one(prop, plugin, tier)
+    for extra in getattr(plugin, "EXTRA_PROPS", []):
+        class _P:
+            THEOREMS = []
+        ok2, info2 = _proof_audit_one(extra, _P, tier)
+        ok = ok and ok2
+        info["problems"] += ["[%s] %s" % (extra, x) for x in info2.get("problems", [])]
+        for k in ("theorems", "wanted_theorems"):
+            info[k] = info.get(k, []) + info2.get(k, [])
+        for k in ("print_assumptions", "closed", "pinned_statements"):
+            info[k] = info.get(k, 0) + info2.get(k, 0)
+        info["axioms"] = sorted(set(info.get("axioms", [])) | set(info2.get("axioms", [])))
+    return ok, info
+
+
+def _proof_audit_one(prop, plugin, tier):
     """Returns (ok, info dict). ok False means a proof obligation no longer checks."""
     info = {"problems": []}
     t0 = time.time()
@@ -386,11 +403,13 @@ def run_check(prop, plugin, tier, seed, replay=None):
     audit_ok, audit = proof_audit(prop, plugin, tier)
     chk = None
     if tier == "thorough" and audit_ok:
-        rc, out = coqchk(prop)
-        chk = {"rc": rc, "tail": out[-600:]}
-        if rc != 0:
-            audit_ok = False
-            audit["problems"].append("coqchk failed: " + out[-800:])
+        for pf in [prop] + list(getattr(plugin, "EXTRA_PROPS", [])):
+            rc, out = coqchk(pf)
+            chk = {"rc": rc, "tail": out[-600:]}
+            if rc != 0:
+                audit_ok = False
+                audit["problems"].append("coqchk failed on %s: %s" % (pf, out[-800:]))
+                break
 
     # ---- B
     ok, out = build_harness(False)
